@@ -118,13 +118,18 @@ class Ctx:
             "wall_s": round(self.elapsed(), 2),
             "violations": len(self.violations),
         }
-        os.makedirs(os.path.join(VERIF, "evidence"), exist_ok=True)
-        ev_path = os.path.join(VERIF, "evidence", f"{self.prop}.json")
+        ev_dir = os.environ.get("VERIF_EVIDENCE_DIR") or os.path.join(VERIF, "evidence")
+        os.makedirs(ev_dir, exist_ok=True)
+        ev_path = os.path.join(ev_dir, f"{self.prop}.json")
         if os.environ.get("VERIF_ONLY_PINNED") or getattr(self, "replay", None):
             # partial runs (witnesses only / replay of one recorded run) never overwrite the evidence of a full run
             ev_path = os.path.join(os.environ.get("VERIF_SCRATCH", "/tmp"), f"evidence_partial_{self.prop}.json")
         with open(ev_path, "w") as f:
             json.dump(ev, f, indent=1, default=str)
+        if self.tier == "thorough" and ev_path.startswith(os.path.join(VERIF, "evidence")):
+            # the next quick run rewrites evidence/<id>.json: keep the deeper run's record next to it
+            os.makedirs(os.path.join(VERIF, "evidence", "thorough"), exist_ok=True)
+            shutil.copy(ev_path, os.path.join(VERIF, "evidence", "thorough", f"{self.prop}.json"))
         shutil.rmtree(self.scratch_root, ignore_errors=True)
         print(f"[{self.prop}] tier={self.tier} seed={self.seed} evaluations={self.evaluations} "
               f"distinct_nontrivial={len(self.distinct)} violations={len(self.violations)} "
